@@ -71,14 +71,12 @@ fn check2<const DECL: usize, const K0: usize, const K1: usize>(
                 }
             }
             assert!(a.get(2).is_none());
-            kani::cover!(true, "homogeneous array accepted");
             std::mem::forget(a);
         }
         Err(e) => {
             assert!(!(ok0 && ok1), "a homogeneous array must be accepted");
             let first_bad = if !ok0 { ty::<K0>() } else { ty::<K1>() };
             assert!(e.actual == first_bad, "the error names the first offending element's type");
-            kani::cover!(true, "heterogeneous array refused");
             std::mem::forget(e);
         }
     }
